@@ -73,6 +73,9 @@ func StaticCallSites(f *ssa.Function) []ssa.CallInstruction {
 		siteIndex = map[*ssa.Function][]ssa.CallInstruction{}
 		if theProg != nil {
 			for _, g := range theProg.AllFuncs() {
+				if o := g.Origin(); o != nil && o != g {
+					continue // an instantiation repeats the call sites of its generic body
+				}
 				for _, b := range g.Blocks {
 					for _, in := range b.Instrs {
 						for _, op := range in.Operands(nil) {
@@ -168,10 +171,99 @@ func SameX(a, b ssa.Value) bool {
 	return oa == ob || Same(oa, ob)
 }
 
+// ImpliedByResult returns the branch conditions common to every path of the
+// boolean helper called by call that returns `want` (what is known in the
+// caller on the corresponding edge of a test of the call's result).
+func ImpliedByResult(call *ssa.Call, want bool) []Cond {
+	cal := Callee(&call.Call)
+	if cal == nil || cal.Blocks == nil || !IsHelper(call.Parent(), cal) {
+		return nil
+	}
+	paths, ok := EnumPaths(cal, 1, 256)
+	if !ok {
+		return nil
+	}
+	type key struct {
+		ifi   *ssa.If
+		taken bool
+	}
+	var common map[key]Cond
+	n := 0
+	for _, pa := range paths {
+		ret, isR := pa.Last().(*ssa.Return)
+		if !isR {
+			continue
+		}
+		rv := RetVals(ret)
+		if len(rv) == 0 {
+			return nil
+		}
+		if !pa.Feasible() {
+			continue
+		}
+		res := pa.Resolve(rv[0])
+		k, isC := res.(*ssa.Const)
+		if isC && k.Value != nil && (k.Value.String() == "true") != want {
+			continue // this path returns the other answer
+		}
+		cur := map[key]Cond{}
+		for i := 0; i+1 < len(pa.Blocks); i++ {
+			b := pa.Blocks[i]
+			ifi, isIf := b.Instrs[len(b.Instrs)-1].(*ssa.If)
+			if !isIf || b.Succs[0] == b.Succs[1] {
+				continue
+			}
+			taken := pa.Blocks[i+1] == b.Succs[0]
+			cd := CondOf(ifi.Cond, taken)
+			cd.If = ifi
+			cur[key{ifi, taken}] = cd
+		}
+		if !isC {
+			// the result is a computed value: its own truth is one more condition
+			cd := CondOf(res, want)
+			cur[key{nil, want}] = cd
+		}
+		n++
+		if common == nil {
+			common = cur
+			continue
+		}
+		for kk := range common {
+			if _, has := cur[kk]; !has {
+				delete(common, kk)
+			}
+		}
+	}
+	if n == 0 {
+		return nil
+	}
+	var out []Cond
+	for _, cd := range common {
+		out = append(out, cd)
+	}
+	return out
+}
+
 // FactsX: the conditions holding at in, plus those holding at the single call
 // site of the helper containing it and at the creation site of an enclosing
-// function literal (facts are about immutable SSA values).
+// function literal (facts are about immutable SSA values), plus what a
+// boolean helper's answer implies where that answer was tested.
 func FactsX(in ssa.Instruction) []Cond {
+	out := factsX(in)
+	for i := 0; i < len(out) && i < 64; i++ {
+		if call, _, truth, isCall := out[i].BoolCall(); isCall {
+			out = append(out, ImpliedByResult(call, truth)...)
+		}
+		if v, isNil, isE := out[i].ErrCheck(); isE && isNil {
+			if call, _ := TupleCall(v); call != nil {
+				out = append(out, ImpliedByNilError(call)...)
+			}
+		}
+	}
+	return out
+}
+
+func factsX(in ssa.Instruction) []Cond {
 	out := FactsAt(in)
 	f := in.Parent()
 	for depth := 0; f != nil && depth < 5; depth++ {
@@ -514,4 +606,74 @@ func LiteralThroughHelper(v ssa.Value) (fields map[string]ssa.Value, mapv func(s
 		return o
 	}
 	return f, mapv, true
+}
+
+// ImpliedByNilError returns the branch conditions common to every path of
+// the helper called by call on which its error result may be nil (what is
+// known in the caller on the nil-error edge of that call).
+func ImpliedByNilError(call *ssa.Call) []Cond {
+	cal := Callee(&call.Call)
+	if cal == nil || cal.Blocks == nil || !IsHelper(call.Parent(), cal) {
+		return nil
+	}
+	res := cal.Signature.Results()
+	ei := -1
+	for i := 0; i < res.Len(); i++ {
+		if IsErrorType(res.At(i).Type()) {
+			ei = i
+		}
+	}
+	if ei < 0 {
+		return nil
+	}
+	paths, ok := EnumPaths(cal, 1, 256)
+	if !ok {
+		return nil
+	}
+	type key struct {
+		ifi   *ssa.If
+		taken bool
+	}
+	var common map[key]Cond
+	n := 0
+	for _, pa := range paths {
+		ret, isR := pa.Last().(*ssa.Return)
+		if !isR {
+			continue
+		}
+		rv := RetVals(ret)
+		if ei >= len(rv) || !pa.Feasible() || pa.IsNil(rv[ei]) == No {
+			continue
+		}
+		cur := map[key]Cond{}
+		for i := 0; i+1 < len(pa.Blocks); i++ {
+			b := pa.Blocks[i]
+			ifi, isIf := b.Instrs[len(b.Instrs)-1].(*ssa.If)
+			if !isIf || b.Succs[0] == b.Succs[1] {
+				continue
+			}
+			taken := pa.Blocks[i+1] == b.Succs[0]
+			cd := CondOf(pa.Resolve(ifi.Cond), taken)
+			cd.If = ifi
+			cur[key{ifi, taken}] = cd
+		}
+		n++
+		if common == nil {
+			common = cur
+			continue
+		}
+		for kk := range common {
+			if _, has := cur[kk]; !has {
+				delete(common, kk)
+			}
+		}
+	}
+	if n == 0 {
+		return nil
+	}
+	var out []Cond
+	for _, cd := range common {
+		out = append(out, cd)
+	}
+	return out
 }
